@@ -33,11 +33,12 @@ META = {
     "note": "Trusted: drivers/_shims_fault/tenacity.py (stand-in for the uninstalled tenacity) and a fetch_url that reads "
             "the in-memory storage, both only on the *client* side to decode pointer batches; IPC message extents "
             "measured with pyarrow; logical size computed with the same batch constructor as the service; response "
-            "compression off (Accept-Encoding: identity) so 'body' is unambiguous; upload compression not configured "
-            "(bytes uploaded = raw IPC bytes); peak allocation is not observed (DESIGN 5).",
+            "codec identity or zstd ('body' = the smaller of bytes-as-sent and decoded bytes), upload compression none or zstd "
+            "('bytes uploaded' = the smaller of stored and raw bytes); payloads incompressible; peak allocation is not observed (DESIGN 5).",
 }
 
-STATEMENT = ["WireCap", "ExternalCap", "RefusedBeforeUpload", "ProducerWire", "ProducerExternal"]
+MODEL_CLAUSES = ["WireCap", "ExternalCap", "RefusedBeforeUpload", "ProducerWire", "ProducerExternal"]    # invariants of the table
+STATEMENT = MODEL_CLAUSES + ["OversizeIsRpcError"]          # + the shape of a refusal, judged on real responses only
 SANITY = ["NoSpuriousRefusal", "GapIsTheOnlyDifference"]
 
 
@@ -78,9 +79,10 @@ def header_payload_for(target_l: int) -> int:
 class Exec16:
     """Runs one call on a fresh worker and returns one record per HTTP response of interest."""
 
-    def __init__(self, kind, sizes, g, thr, cw, ce, hd, eager, seed) -> None:
+    def __init__(self, kind, sizes, g, thr, cw, ce, hd, eager, seed, accept="identity", compression=None, turn=1) -> None:
         self.kind, self.sizes, self.g, self.thr, self.cw, self.ce, self.hd, self.eager, self.seed = \
             kind, list(sizes), g, thr, cw, ce, hd, eager, seed
+        self.accept, self.compression, self.turn = accept, compression, turn     # turn: which exchange turn is judged
 
     def run(self) -> dict:
         from vgi_rpc.external import ExternalLocationConfig
@@ -88,8 +90,9 @@ class Exec16:
         from vgi_rpc.rpc import AnnotatedBatch, RpcError
 
         st = W.CountingStorage() if self.thr is not None else None
-        apps = W.make_apps(["w1"], cap=self.cw, ext_cap=self.ce, storage=st, threshold=self.thr)
-        r = W.Router(apps, accept="identity", storage=st)
+        apps = W.make_apps(["w1"], cap=self.cw, ext_cap=self.ce, storage=st, threshold=self.thr,
+                           compression=self.compression if st is not None else None)
+        r = W.Router(apps, accept=self.accept, storage=st)
         cfg = ExternalLocationConfig(url_validator=None) if st is not None else None
         logs: list = []
         client = {"ok": True, "error": "", "ids": []}
@@ -105,9 +108,13 @@ class Exec16:
                     elif self.kind == "exchange":
                         s = p.exch(seed=self.seed, pad=0)
                         skip = 1
-                        out = s.exchange(AnnotatedBatch(pa.RecordBatch.from_pydict({"size": [self.sizes[0]], "log": [self.g]},
-                                                                                  schema=W.X_IN)))
-                        client["ids"] = [1 if out.batch.column("p")[0].as_py() == W.payload(self.seed, 0, self.sizes[0]) else 0]
+                        for t in range(self.turn):
+                            if t:       # an earlier, tiny exchange turn (not judged): the judged one is the stream's second
+                                skip += 1
+                            size = self.sizes[0] if t == self.turn - 1 else 1
+                            out = s.exchange(AnnotatedBatch(pa.RecordBatch.from_pydict(
+                                {"size": [size], "log": [self.g if t == self.turn - 1 else 0]}, schema=W.X_IN)))
+                        client["ids"] = [1 if out.batch.column("p")[0].as_py() == W.payload(self.seed, self.turn - 1, self.sizes[0]) else 0]
                     elif self.kind == "xinit":
                         p.exchh(seed=self.seed, pad=0, hdr=self.hd)
                     else:
@@ -120,17 +127,20 @@ class Exec16:
                             client["ids"].append(k + 1 if okp else 0)
                 except RpcError as ex:
                     client["ok"], client["error"] = False, f"{ex.error_type}: {str(ex)[:160]}"
+        if self.kind == "exchange" and len(r.log) < 1 + self.turn:
+            return {"client": client, "responses": [], "nlogs": len(logs)}      # an earlier (unjudged) turn was refused
         return {"client": client, "responses": [self._parse(e, st) for e in r.log[skip:]], "nlogs": len(logs)}
 
     def _parse(self, e: dict, st) -> dict:
         from vgi_rpc.metadata import LOCATION_KEY, LOG_LEVEL_KEY, STATE_KEY
 
-        ups = [c["bytes"] for c in (st.calls if st is not None else []) if c["req"] == e["i"]]
-        rec = {"path": e["path"], "status": e["status"], "rpc_error": e["rpc_error"], "body": e["raw"], "ups": ups,
-               "ipc": e["ctype"].startswith(W.ARROW_CT)}
+        mine = [c for c in (st.calls if st is not None else []) if c["req"] == e["i"]]
+        ups = [min(c["bytes"], c["raw"]) for c in mine]
+        rec = {"path": e["path"], "status": e["status"], "rpc_error": e["rpc_error"], "body": min(e["raw"], len(e["body"])),
+               "ups": ups, "upsraw": [c["raw"] for c in mine], "ipc": e["ctype"].startswith(W.ARROW_CT)}
         streams = W.split_ipc(e["body"]) if rec["ipc"] and e["body"] else []
         if not streams:
-            rec.update(ok=False, n=0, last=0, framing=e["raw"], cycles=[], h=0, eos=0, err=True, sentinel=False)
+            rec.update(ok=False, n=0, last=0, framing=e["raw"], cycles=[], h=0, eos=0, err=True, sentinel=False, shape="other")
             return rec
         data = streams[-1]
         framing = sum(s["total"] for s in streams[:-1]) + data["schema"] + data["eos"]
@@ -151,14 +161,15 @@ class Exec16:
             else:
                 cycles.append(acc + m["bytes"])
                 acc = 0
-        rec.update(ok=(not err) and e["status"] == 200 and e["rpc_error"] == "", n=len(cycles), last=cycles[-1] if cycles else 0,
+        ok = (not err) and e["status"] == 200 and e["rpc_error"] == ""
+        rec.update(ok=ok, shape="ok" if ok else ("rpc_error" if err else "other"), n=len(cycles), last=cycles[-1] if cycles else 0,
                    framing=framing + acc, cycles=cycles, h=data["schema"], eos=data["eos"], err=err, sentinel=sentinel,
                    header_stream=sum(s["total"] for s in streams[:-1]))
         return rec
 
 
 # ------------------------------------------------------------------------------------------------ concretisation
-def place(v_abs: int, lm_abs: list, lm_real: list, rng, nvar: int) -> list:
+def place(v_abs: int, lm_abs: list, lm_real: list, rng, nvar: int, far: bool = False) -> list:
     """Real cap values standing in the same order relation to lm_real as v_abs to lm_abs (None for 0)."""
     if v_abs == 0:
         return [None]
@@ -173,6 +184,8 @@ def place(v_abs: int, lm_abs: list, lm_real: list, rng, nvar: int) -> list:
         return []
     near = lo + 1 if (k > 0 and v_abs == lm_abs[k - 1] + 1) else hi - 1     # keep "+1" / "-1" of the abstract case exact
     out = [near]
+    if far:         # under a response codec the as-sent body is smaller than the decoded one: stay well inside the interval
+        out = [rng.randrange(lo + 1, max(lo + 2, lo + (hi - lo) // 2))]
     for v in (hi - 1, lo + 1, rng.randrange(lo + 1, hi)):
         if v not in out and v >= 1:
             out.append(v)
@@ -186,7 +199,7 @@ def _run(ctx: Ctx) -> None:
     quick = ctx.quick
     rng = ctx.rng
     cs = consts(2 if quick else 3)
-    cases = table.enumerate_cases(ctx, "http", "Caps", constants=cs, invariants=STATEMENT + SANITY, timeout=1500)
+    cases = table.enumerate_cases(ctx, "http", "Caps", constants=cs, invariants=MODEL_CLAUSES + SANITY, timeout=1500)
     ctx.exhaustive = True
     differ = [c for c in cases if c["exp"]["out"] != c["exp"]["coded"]]
     ctx.extra["cases"] = {"enumerated": len(cases), "intended_and_coded_design_differ": len(differ)}
@@ -195,7 +208,7 @@ def _run(ctx: Ctx) -> None:
                 "distinct (kind, real sizes, logs, threshold, header, caps) executions with at least one cap configured")
     ctx.assume("drivers/_shims_fault/tenacity.py stands in for the uninstalled `tenacity`; vgi_rpc.external.fetch_url is "
                "replaced by a reader of the in-memory storage (client-side pointer resolution only)",
-               "responses are requested with Accept-Encoding: identity; ExternalLocationConfig.compression is None",
+               "response codec identity or zstd, upload compression none or zstd (generous readings of 'body' / 'bytes uploaded')",
                "sealed state tokens inside exchange batches vary by a few bytes between runs: model agreement (not the "
                "statement clauses) is judged with 16 bytes of slack there")
 
@@ -237,11 +250,15 @@ def _run(ctx: Ctx) -> None:
             if c["hd"]:
                 # header logical size: at least every threshold; exactly at it when the threshold is the largest
                 hd = header_payload_for((thr or lb) if c["t"] == 7 else max(thr or 0, lb) + (1 if vi == 0 else rng.randrange(1, 2000)))
-            dkey = (kind, tuple(pay), g, thr, hd, c["eager"])
+            # concretisation classes outside the size arithmetic: response codec, upload compression, which exchange turn
+            accept = "zstd" if (ci + vi) % 4 == 1 else "identity"
+            comp = "zstd" if (thr is not None and (ci + vi) % 5 == 2) else None
+            turn = 2 if (kind == "exchange" and (ci + vi) % 2) else 1
+            dkey = (kind, tuple(pay), g, thr, hd, c["eager"], comp, turn)
             if dkey not in dry_cache:
                 seed[0] += 1
                 ndry[0] += 1
-                d = Exec16(kind, pay, g, thr, None, None, hd, c["eager"], seed[0]).run()
+                d = Exec16(kind, pay, g, thr, None, None, hd, c["eager"], seed[0], compression=comp, turn=turn).run()
                 if len(dry_cache) > 4000:
                     dry_cache.clear()
                 dry_cache[dkey] = _landmarks(kind, pay, lk, d, hd)
@@ -250,12 +267,14 @@ def _run(ctx: Ctx) -> None:
                 ctx.drift.append({"what": "dry run does not have the model's landmarks", "case": c,
                                   "real": None if lm is None else {"wl": lm["wl"], "el": lm["el"]}, "model": {"wl": exp["wl"], "el": exp["el"]}})
                 continue
-            for cw in place(c["cw"], exp["wl"], lm["wl"], rng, nvar):
+            for cw in place(c["cw"], exp["wl"], lm["wl"], rng, nvar, far=accept != "identity"):
                 for ce in place(c["ce"], exp["el"], lm["el"], rng, nvar):
                     seed[0] += 1
-                    ex = Exec16(kind, pay, g, thr, cw, ce, hd, c["eager"], seed[0])
+                    ex = Exec16(kind, pay, g, thr, cw, ce, hd, c["eager"], seed[0], accept=accept, compression=comp, turn=turn)
                     res = ex.run()
-                    key = [kind, pay, g, thr, hd, c["eager"], cw, ce]
+                    if turn == 2 and not res["responses"]:      # the small first exchange turn was itself refused
+                        continue
+                    key = [kind, pay, g, thr, hd, c["eager"], cw, ce, accept, comp, turn]
                     _record(ctx, obs, key, c, lm, res, cw, ce, kind, c["eager"], hd is not None)
 
     ctx.extra["dry_runs"] = ndry[0]
@@ -269,11 +288,16 @@ def _run(ctx: Ctx) -> None:
         o = obs[idx]
         c = o["case"]
         for cl in clauses:
+            if cl == "NotAsFound":
+                continue                    # signature material (below), neither a clause nor drift
             if cl not in STATEMENT:
                 ctx.drift.append({"clause": cl, "key": o["_key"], "obs": o["obs"], "client": o["_client"]})
                 continue
             where = _where(c, o["obs"]) if cl in ("ExternalCap", "RefusedBeforeUpload", "ProducerExternal") else "n/a"
-            ctx.violation(cl, {"kind": c["kind"], "where": where, "response_ok": o["obs"]["ok"]},
+            # as_found: TLC found the observation identical (outcome, uploads byte for byte, cycles) to Decide(c, FALSE,
+            # FALSE), the code as found -- the only thing an open known finding may stand for
+            ctx.violation(cl, {"kind": c["kind"], "where": where, "response_ok": o["obs"]["ok"],
+                               "as_found": "NotAsFound" not in clauses},
                           {"key": o["_key"], "case": c, "observed": o["obs"], "client": o["_client"], "abstract": o["_abs"]})
 
 
@@ -284,7 +308,7 @@ def _where(c: dict, o: dict) -> str:
     prediction-gap           the overshoot lies inside the last upload's framing: total - x_last + l_last <= cap < total
     header+prediction-gap    both of the above are needed to explain it
     other                    anything else (never matched by a known finding)"""
-    ups = list(o["ups"])
+    ups = list(o["upsraw"])
     ce = c["ce"]
     hdr = 0
     if c["hd"]["on"] and c["hd"]["ext"] and ups and ups[0] == c["hd"]["x"]:
@@ -308,7 +332,7 @@ def _landmarks(kind, pay, lk, d, hd):
         return None
     cyc, h, hdrec = [], None, {"on": False, "ext": False, "l": 0, "x": 0}
     for i, r in enumerate(rs):
-        ups = list(r["ups"])
+        ups = list(r["upsraw"])          # the model's x is what the code accounts: raw IPC bytes
         if i == 0 and hd is not None:
             l_h = header_logical(hd)
             if ups:
@@ -350,7 +374,8 @@ def _record(ctx, obs, key, c_abs, lm, res, cw, ce, kind, eager, has_hd) -> None:
     for i, r in enumerate(res["responses"]):
         case = {"kind": kind, "from": frm, "h": lm["h"], "cw": cw or 0, "ce": ce or 0, "eager": eager,
                 "cyc": lm["cyc"], "hd": lm["hd"] if (i == 0 and has_hd) else nohd, "slack": 16 if kind == "exchange" else 0}
-        o = {"ok": r["ok"], "body": r["body"], "framing": r["framing"], "last": r["last"], "n": r["n"], "ups": r["ups"]}
+        o = {"ok": r["ok"], "shape": r["shape"], "body": r["body"], "framing": r["framing"], "last": r["last"], "n": r["n"],
+             "ups": r["ups"], "upsraw": r["upsraw"]}
         obs.append({"case": case, "obs": o, "_key": key + [i], "_client": res["client"], "_abs": c_abs})
         frm += r["n"]
     # the client's view must agree with the wire view (harness-level fact, reported as drift)
